@@ -127,6 +127,15 @@ def run_case(case, ctx):
         pools[c] = ([int(v) for v in rng.permutation(20)[:k]] if intcat else
                     [CATS[j] for j in rng.permutation(len(CATS))[:k]])
     train = draw(nrow + 3, pools, miss=0.1)
+    if ncat >= 2 and case["sub"] % 6 == 4 and not intcat:
+        # a categorical column with no category at all at fit time (all missing): every value met later is unseen
+        c0 = cat_cols_all[-1]
+        col = numpy.empty(len(train), dtype=object)
+        for i in range(len(train)):
+            col[i] = missing_value()
+        train[c0] = col
+        train[c0] = train[c0].astype(object)
+        ctx.cls("column-without-category-at-fit")
     # every pool value appears at least once? not required: categories are what fit saw
     test = draw(nrow, pools)
     ikind = ["range", "shuffled", "offset", "strings", "duplicated"][case["sub"] % 5]
